@@ -86,6 +86,8 @@ def make_case(seed, shard, i):
     pol = [f for f in ("collect", "stop", "fail", "print") if r.random() < 0.5]
     scan = r.choice(["*", "*", "1*", "0-3", "1-4"])
     prog = {"scan": scan, "comps": comps, "mode": "AND"}
+    if r.random() < 0.12 and "onmatch" not in repr(comps):
+        prog["mode"] = "OR"  # logic-mode: OR - the verdict and what failed()/valid() report do not depend on it
     if r.random() < 0.25:
         # the csvpath's own validation-mode: each token overrides the corresponding configured flag for this csvpath
         toks = r.sample(["fail", "no-fail", "stop", "no-stop", "no-raise"], r.randint(1, 2))
@@ -146,7 +148,10 @@ def run_one(prog, rows, pol, agg):
     from vfy import diffrun
 
     prog = lang.tolist(prog)
-    status, info = diffrun.decide(prog, rows, agg, WHAT, KNOWN_SWITCHES, extra_check=valid_monitor, policy=pol, model_policy=effective_policy(prog, pol))
+    # (what a side-effect-only component votes under logic-mode: OR is not part of this property: for OR programs the
+    # verdict, what valid()/failed() report through the variables, and the error lines are compared, not the matches)
+    what = WHAT if prog.get("mode") != "OR" else ("vars", "valid")
+    status, info = diffrun.decide(prog, rows, agg, what, KNOWN_SWITCHES, extra_check=valid_monitor, policy=pol, model_policy=effective_policy(prog, pol))
     flags = "/".join("".join(r[1:4]) if r else "B" for r in rows)
     shape = lang.prog_shape(prog) + "|" + flags + "|" + ",".join(pol)
     case = {"prog": prog, "rows": rows, "policy": pol}
